@@ -7,7 +7,7 @@ Part A (approximator level): the full product
     upper bound; thorough adds near the lower bound, all components on the upper bound, mixed)
   x step (two scalars, one per-component vector of the length of x)
   x how the step is given (f_gradient(step=...) / constructor)
-  x x_indices (the default and every non-empty subset)
+  x x_indices (the default, every non-empty subset, every permutation of it, selections with a repeated index)
   x parallel (off / on = 2 processes; the quick tier crosses parallel=on with step in {first scalar, vector} given at
     call only - each parallel run costs ~60 ms of process start-up; the thorough tier runs the full product)
   x design space (none / bounded with normalize off / bounded with normalize on)
@@ -22,6 +22,9 @@ the following variable: Discipline.linearize in the three approximation modes (B
 indices=...) on a correct Jacobian (verdict, and the reference Jacobian the call itself saves, block by block:
 selected columns exact, the others zero) and on Jacobians wrong in exactly one selected entry of any selected block
 (B2); DisciplineJacApprox.compute_approx_jac(x_indices=...) placement of partial Jacobians (B3).
+Part C (cache axis of the discipline level): cache in {none, SimpleCache, MemoryFullCache} x tolerance in {0, 1e-4
+(far above every step), 1e-12} x linearize in the three modes / compute_approx_jac / check_jacobian (exact Jacobian
+accepted; one wrong entry, a forgotten block, a null Jacobian rejected), same error-bound oracle.
 Part HB (histories on ONE discipline / DisciplineJacApprox): two linearize / compute_approx_jac / check_jacobian calls
 with a different point, differentiated io, x_indices or indices; the second is judged like a fresh one.
 
@@ -67,8 +70,17 @@ Oracle boundaries
   thread workers must be distinct objects, which the approximators (n times the same bound method) are not -
   every approximator, and Discipline.check_jacobian(parallel=True, use_threading=True), raises that ValueError.
   The call log lives in fork-shared memory so that the bound oracle also sees the children's evaluations.
-* x_indices is enumerated as sorted subsets (the statement says "subset"; column order of a permuted
-  selection is not specified).
+* x_indices / indices are ORDERED selections: every caller (the scatter flat_jac_complete[:, x_indices] = flat_jac in
+  compute_approx_jac, check_jacobian's computed_jac[rows, cols] vs approx_jac[rows, cols]) relies on "column j of
+  f_gradient is the derivative w.r.t. x_indices[j]", so every permutation of every subset (n <= 3; n >= 4: ordered
+  pairs and reversed subsets) and selections with one repeated index (the API accepts them: duplicated columns) are
+  enumerated at the three levels with that oracle.
+* Cache axis (part C): the discipline-level approximations must not be served from the discipline's cache, whatever
+  its type and tolerance (compute_approx_jac zeroes the tolerance on purpose); MemoryFullCache cases run on the
+  non-daemonic workers because the cache lives in a multiprocessing manager.  DisciplineJacApprox.auto_set_step does
+  NOT zero the tolerance on the unmodified tree (steps and error estimates silently degenerate with a tolerant
+  cache): patch notes/fixes/c16_auto_set_step_cache_tolerance.diff; the witnesses run with ``./check C16 --only Y``
+  (not part of the default run until the patch is applied or the finding registered).
 * check_jacobian(auto_set_step=True): the accuracy then depends on gemseo's own step estimate, for which the
   statement gives no bound; not enumerated (a witness through that path is quoted in the report only).
 * check_jacobian on a Jacobian wrong in a NOT selected entry: not specified by the statement, not checked.
@@ -484,7 +496,7 @@ def _one_call(fn, approx, ap, probe, u, lbu, ubu, has_ds, call_step, step_repr, 
     jac = np.asarray(jac)
     pts, n_calls = _LOG.points()
     obs.update(jacobian=jac.tolist(), n_calls=n_calls, pattern=_pattern(approx, u, pts, cols), order=",".join(sorted(set(labels))))
-    if n_calls < len(cols):  # the log is the harness' eyes: fewer calls than columns means it is blind
+    if n_calls < len(set(cols)):  # the log is the harness' eyes: fewer calls than differentiated components means it is blind
         raise HarnessError(f"evaluation log saw {n_calls} calls for {len(cols)} columns")
     if jac.shape != exp_shape:
         viols.append(("shape", f"shape {jac.shape}, expected {exp_shape}"))
@@ -679,7 +691,19 @@ def _lay(case):
     return FUNCS[lay["fn"]], lay["ins"], lay["outs"]
 
 
-def _toy(layout, point, wrong=None):
+CACHES = [["NONE"], ["SIMPLE", 0.0], ["SIMPLE", 1e-4], ["SIMPLE", 1e-12], ["MEMORY_FULL", 0.0], ["MEMORY_FULL", 1e-4], ["MEMORY_FULL", 1e-12]]
+
+
+def _toy(layout, point, wrong=None, cache=None):
+    """``cache``: None = the discipline's default cache (SimpleCache, tolerance 0) or [type(, tolerance)];
+    1e-4 is far above every differentiation step, 1e-12 is below the real steps and above the complex ones."""
+    d = _toy0(layout, point, wrong)
+    if cache:
+        d.set_cache(getattr(d.CacheType, cache[0]), **({"tolerance": cache[1]} if len(cache) > 1 else {}))
+    return d
+
+
+def _toy0(layout, point, wrong=None):
     global _TOY
     if _TOY is None:
         from gemseo.core.discipline import Discipline
@@ -713,7 +737,11 @@ def _toy(layout, point, wrong=None):
                 self.jac = {o: {i: j[np.ix_(r, c)].copy() for i, c in self.ins.items()} for o, r in self.outs.items()}
                 if self.wrong:
                     o, r, i, c = self.wrong
-                    if r == "zero":  # the derivatives of output o w.r.t. input i are "forgotten"
+                    if r == "zero" and o == "*":  # a null Jacobian
+                        for blocks in self.jac.values():
+                            for blk in blocks.values():
+                                blk[:] = 0.0
+                    elif r == "zero":  # the derivatives of output o w.r.t. input i are "forgotten"
                         self.jac[o][i][:] = 0.0
                     else:
                         self.jac[o][i][r, c] += WRONG_DELTA
@@ -828,8 +856,9 @@ def _judge_check(case, ok, approx, sel, names_in, names_out, lay, exact, tol, st
     expected_ok = not case["wrong"]
     if case["wrong"] and case["wrong"][1] == "zero":
         o, _, i, _ = case["wrong"]
-        rows = [outs[o][k] for k in _selected(sel, o, len(outs[o]))]
-        cols = [ins[i][k] for k in _selected(sel, i, len(ins[i]))]
+        no_, ni_ = (list(names_out) or list(outs), list(names_in) or list(ins)) if o == "*" else ([o], [i])
+        rows = [outs[o][k] for o in no_ for k in _selected(sel, o, len(outs[o]))]
+        cols = [ins[i][k] for i in ni_ for k in _selected(sel, i, len(ins[i]))]
         if not (np.abs(exact[np.ix_(rows, cols)]).max() > 0.05 > 100 * thr * (2.0 + float(fn.bound(1).max()))):
             return viols  # the forgotten block is (nearly) zero on the selected entries: no verdict is specified
     if bool(ok) != expected_ok:
@@ -838,7 +867,7 @@ def _judge_check(case, ok, approx, sel, names_in, names_out, lay, exact, tol, st
     if approx is not None:  # the reference Jacobian the call computed: selected columns exact, the others zero
         ni, no = list(names_in) or list(ins), list(names_out) or list(outs)
         _, cols = _flat_cols(sel, ni, ins)
-        strict = len(cols) < sum(len(ins[i]) for i in ni)
+        strict = set(cols) != {j for i in ni for j in ins[i]}
         if sorted(approx) != sorted(no) or any(sorted(approx[o]) != sorted(ni) for o in approx):
             viols.append(("jacobian-keys", f"reference Jacobian has {[(o, sorted(v)) for o, v in approx.items()]}, expected {no} x {ni}"))
         else:
@@ -864,7 +893,7 @@ def exec_B(case):
     part = case["part"]
     try:
         if part == "B1":
-            d = _toy(layout, x)
+            d = _toy(layout, x, cache=case.get("cache"))
             if case["setup"] == "setter":
                 d.linearization_mode = MODE[a]
             else:
@@ -885,14 +914,14 @@ def exec_B(case):
         elif part == "B3":
             from gemseo.utils.derivatives.derivatives_approx import DisciplineJacApprox
 
-            d = _toy(layout, x)
+            d = _toy(layout, x, cache=case.get("cache"))
             d.execute(data)
             kw = {"parallel": True, "n_processes": 2} if case["par"] else {}
             ap = DisciplineJacApprox(d, MODE[a], **({} if step is None else {"step": step}), **kw)
             jac = ap.compute_approx_jac(list(outs), list(ins), list(case["xidx"]))
             viols += _compare_blocks(jac, list(ins), list(outs), exact, tol, list(case["xidx"]) or None, ins, outs)
         elif part == "B2":
-            d = _toy(layout, x, tuple(case["wrong"]) if case["wrong"] else None)
+            d = _toy(layout, x, tuple(case["wrong"]) if case["wrong"] else None, cache=case.get("cache"))
             thr = _threshold(fn, tol)
             ok, approx = _check_jacobian(d, case, data, a, thr, step, case["sel"], case["I"], case["O"])
             obs.update(result=bool(ok), threshold=thr)
@@ -922,7 +951,7 @@ def exec_HB(case):
     obs, viols = {"x1": x1.tolist(), "x2": x2.tolist(), "step": step}, []
     try:
         if kind == "linearize":
-            d = _toy(layout, x1)
+            d = _toy(layout, x1, cache=case.get("cache"))
             d.set_jacobian_approximation(MODE[a], **({} if step is None else {"jax_approx_step": step}))
             # add_differentiated_* accumulate (documented: "Add the inputs ..."): the second request is the union
             ni = {i for cfg in (case["first"], case["second"]) if cfg for i in cfg[0]}
@@ -974,6 +1003,28 @@ def exec_HB(case):
     return _dedupe(viols), obs
 
 
+def exec_Y(case):
+    from gemseo.utils.derivatives.derivatives_approx import DisciplineJacApprox
+
+    alpha = ALPHABETS[case["alpha"]]
+    fn, ins, outs = _lay(case)
+    x = _disc_point(fn, "interior", alpha)
+    res = []
+    for cache in (["NONE"], case["cache"]):
+        d = _toy(case["layout"], x, cache=cache)
+        d.execute(_data(ins, x))
+        runs = d.n_runs
+        ap = DisciplineJacApprox(d, MODE[case["mode"]], step=alpha["steps"][1])
+        err, steps = ap.auto_set_step(list(outs), list(ins), print_errors=False)
+        res.append((np.concatenate([np.atleast_1d(steps[i]) for i in ins]), np.asarray(err, dtype=float), d.n_runs - runs))
+    (s0, e0, r0), (s1, e1, r1) = res
+    obs = {"steps_without_cache": s0.tolist(), "steps": s1.tolist(), "errors_without_cache": e0.tolist(), "errors": e1.tolist(), "runs_without_cache": r0, "runs": r1}
+    viols = []
+    if not (np.allclose(s0, s1, rtol=1e-9, atol=0.0) and np.allclose(e0, e1, rtol=1e-9, atol=1e-300)):
+        viols.append(("auto_set_step-independent-of-cache", f"cache {case['cache']}: steps {s1.tolist()} errors {e1.tolist()} ({r1} discipline runs) vs without cache: steps {s0.tolist()} errors {e0.tolist()} ({r0} runs)"))
+    return viols, obs
+
+
 def _dedupe(viols):
     seen, out = set(), []
     for inv, msg in viols:  # one message per invariant is enough
@@ -1013,7 +1064,31 @@ def _compare_blocks(jac, names_in, names_out, exact, tol, xidx, ins, outs):
 # structural flags, minimisation of failing cases (attribution to the structural trigger), signatures
 # ------------------------------------------------------------------------------------------------------
 def _subset_flag(idx, n):
+    if len(set(idx)) < len(idx):
+        return "selection-with-repeated-index"
+    if idx != sorted(idx):
+        return "unsorted-selection" if len(idx) < n else "unsorted-full-selection"
     return "explicit-full-set" if len(idx) == n else "strict-subset" if idx == list(range(len(idx))) else "strict-subset-nonleading"
+
+
+def _ordered_selections(n, thorough, small=False):
+    """The default ([]), every sorted non-empty subset, and ORDERED selections: every permutation of every subset
+    (n <= 3; n >= 4: every ordered pair and the reverse of every larger subset) plus selections with one repeated
+    index ([j, j]; [n-1, 0, n-1]; thorough, n <= 3: every [j, k, j]).  ``small``: only a few representatives of the
+    non-sorted ones (used where a case costs a process start-up)."""
+    subsets = [list(c) for c in product.nonempty_subsets(list(range(n)))]
+    out = [[]] + subsets
+    if small:
+        return out + [[n - 1, 0], [n - 1, n - 1]] + ([list(range(n))[::-1]] if n > 2 else [])
+    for sub in subsets:
+        if len(sub) < 2:
+            continue
+        perms = itertools.permutations(sub) if (n <= 3 or len(sub) == 2) else [tuple(sub[::-1])]
+        out += [list(q) for q in perms if list(q) != sub]
+    out += [[j, j] for j in range(n)] + [[n - 1, 0, n - 1]]
+    if thorough and n <= 3:
+        out += [[j, k, j] for j in range(n) for k in range(n) if j != k and [j, k, j] != [n - 1, 0, n - 1]]
+    return out
 
 
 def _sel_flags(sel, names_in, names_out, ins, outs):
@@ -1024,7 +1099,14 @@ def _sel_flags(sel, names_in, names_out, ins, outs):
     _, cols = _flat_cols(sel, ni, ins)
     allc = [j for i in ni for j in ins[i]]
     rows_strict = any(len(_selected(sel, o, len(outs[o]))) < len(outs[o]) for o in no)
-    if cols != allc:
+    sels = [_selected(sel, k, len((ins if k in ins else outs)[k])) for k in sel if k in ni or k in no]
+    if any(len(set(v)) < len(v) for v in sels):
+        f.append("indices:repeated-component")
+    elif any(v != sorted(v) for v in sels):
+        f.append("indices:unsorted-components")
+    if cols != allc and set(cols) == set(allc):
+        pass
+    elif cols != allc:
         strict_vars = [i for i in ni if len(_selected(sel, i, len(ins[i]))) < len(ins[i])]
         where = "" if len(ni) < 2 or len(ins[ni[0]]) < 2 else ":on-first-variable" if strict_vars == ni[:1] else ":on-last-variable" if strict_vars == ni[-1:] else ":on-several-variables"
         f.append(("indices:strict-input-subset" if cols == allc[: len(cols)] else "indices:strict-input-subset-nonleading") + where)
@@ -1076,6 +1158,9 @@ def _flags(case):
     fn, ins, outs = _lay(case)
     if case.get("layout", "toy33") != "toy33":
         f.append("two-vector-inputs")
+    if case.get("cache"):
+        c = case["cache"]
+        f.append("cache:" + c[0] + ("" if len(c) < 2 or c[1] == 0.0 else ":tolerance-above-step" if c[1] >= 1e-5 else ":tolerance-1e-12"))
     if case["step"] == "vec":
         f.append("step-vector")
     elif case["step"] == "default":
@@ -1099,7 +1184,7 @@ def _flags(case):
         if case["O"]:
             f.append("output_names-given")
         if case["wrong"]:
-            f.append("forgotten-block-of-following-variable" if case["wrong"][1] == "zero" else "one-wrong-selected-entry")
+            f.append("null-jacobian" if case["wrong"][0] == "*" else "forgotten-block-of-following-variable" if case["wrong"][1] == "zero" else "one-wrong-selected-entry")
     elif p == "HB":
         f.append("same-object-second-call:" + case["kind"])
         if case["same_point"]:
@@ -1127,7 +1212,7 @@ def _wrong_selected(wrong, sel, names_in, names_out, ins, outs):
     o, r, i, c = wrong
     ni, no = list(names_in) or list(ins), list(names_out) or list(outs)
     if r == "zero":
-        return o in no and i in ni
+        return o == "*" or (o in no and i in ni)
     return o in no and i in ni and r in _selected(sel, o, len(outs[o])) and c in _selected(sel, i, len(ins[i]))
 
 
@@ -1154,24 +1239,24 @@ def _resets(case):
     if p == "A":
         n = FUNCS[case["fn"]].n
         out += [("par", False), ("via", "call"), ("step", "s1"), ("ds", "none"), ("ds", "phys"), ("point", "interior"), ("fn", DEFAULT_FN[n])]
-        out += [("idx", [])] + [("idx", [j]) for j in range(n)]
+        out += [("idx", [])] + [("idx", [j]) for j in range(n)] + [("idx", [1, 0]), ("idx", [0, 0])]
     elif p == "H":
         n = FUNCS[case["fn"]].n
         out += [("step", "s1"), ("normalize", False), ("edit", "none"), ("pos", "interior"), ("fn", DEFAULT_FN[n])]
-        out += [("idx2", [])] + [("idx2", [j]) for j in range(n)]
+        out += [("idx2", [])] + [("idx2", [j]) for j in range(n)] + [("idx2", [1, 0])]
     elif p == "B1":
-        out += [("point", "interior"), ("setup", "explicit"), ("din", None), ("layout", "toy33")]
+        out += [("cache", None), ("point", "interior"), ("setup", "explicit"), ("din", None), ("layout", "toy33")]
     elif p == "B3":
         n = _lay(case)[0].n
-        out += [("par", False), ("step", "scalar"), ("xidx", [])] + [("xidx", [j]) for j in range(n)]
+        out += [("cache", None), ("par", False), ("step", "scalar"), ("xidx", [])] + [("xidx", [j]) for j in range(n)] + [("xidx", [1, 0]), ("xidx", [0, 0])]
     elif p == "B2":
         _, ins, outs = _lay(case)
         vi, vo = list(ins)[-1], list(outs)[-1]
-        out += [("wrong", None), ("step", "scalar"), ("I", []), ("O", [])]
-        out += [("sel", s) for s in ({}, {vi: 0}, {vi: 1}, {vo: 0}, {vo: 1})]
+        out += [("cache", None), ("wrong", None), ("step", "scalar"), ("I", []), ("O", [])]
+        out += [("sel", s) for s in ({}, {vi: 0}, {vi: 1}, {vo: 0}, {vo: 1}, {vi: [1, 0]}, {vi: [1, 1]}, {vo: [1, 0]})]
         out += [("sel", {k: v for k, v in case["sel"].items() if k != drop}) for drop in case["sel"]]
     elif p == "HB":
-        out += [("wrong", None), ("step", "scalar"), ("same_point", True)]
+        out += [("cache", None), ("wrong", None), ("step", "scalar"), ("same_point", True)]
         if case["kind"] == "linearize":
             out += [("first", None), ("second", None)]
         elif case["kind"] == "compute_approx_jac":
@@ -1187,13 +1272,18 @@ def _rank(sel):
     if not sel:
         return 0
     if isinstance(sel, dict):
-        return 3 if len(sel) > 1 or not isinstance(next(iter(sel.values())), int) else 1 if next(iter(sel.values())) == 0 else 2
-    return 3 if len(sel) > 1 else 1 if sel[0] == 0 else 2
+        v = next(iter(sel.values()))
+        if len(sel) == 1 and v in ([1, 0], [0, 0], [1, 1]):
+            return 3
+        return 4 if len(sel) > 1 or not isinstance(v, int) else 1 if v == 0 else 2
+    if len(sel) == 1:
+        return 1 if sel[0] == 0 else 2
+    return 3 if sel in ([1, 0], [0, 0]) else 4
 
 
 def _execute(case):
     p = case["part"]
-    return exec_A(case) if p == "A" else exec_H(case) if p == "H" else exec_HB(case) if p == "HB" else exec_B(case)
+    return exec_A(case) if p == "A" else exec_H(case) if p == "H" else exec_HB(case) if p == "HB" else exec_Y(case) if p == "Y" else exec_B(case)
 
 
 def _minimize(case, inv):
@@ -1245,6 +1335,7 @@ LEVELS = {
     "B1": "Discipline.linearize",
     "B2": "Discipline.check_jacobian",
     "B3": "DisciplineJacApprox.compute_approx_jac",
+    "Y": "DisciplineJacApprox.auto_set_step",
 }
 
 
@@ -1282,6 +1373,8 @@ def check_case(case, tally):
             _MIN_CACHE[ck] = (small, [f for f in _flags(small)], m2)
         small, mflags, m2 = _MIN_CACHE[ck]
         sig = {"invariant": inv, "approximator": _approx_of(case), "level": level, "trigger": "+".join(mflags) or "always"}
+        if inv == "auto_set_step-independent-of-cache":  # stable key, should the finding be registered instead of patched
+            sig["shape"] = "auto_set_step-evaluates-outside-the-zero-cache-tolerance-context"
         if "non-differentiated-inputs-off-defaults" in mflags:  # stable key for the registered known finding
             sig["shape"] = "non-differentiated-inputs-off-defaults"
         tally.violation(sig, small, f"{inv}: {m2}\n  minimal case={small}\n  structural trigger: {sig['trigger']}")
@@ -1299,7 +1392,7 @@ def cases_A(thorough, alpha):
             "point": THOROUGH_POINTS if thorough else QUICK_POINTS,
             "step": ["s1", "s2", "vec"],
             "via": ["call", "ctor"],
-            "idx": [[]] + [list(s) for s in product.nonempty_subsets(list(range(n)))],
+            "idx": _ordered_selections(n, thorough),
             "par": [False, True],
             "ds": ["none", "phys", "norm"],
         }
@@ -1309,6 +1402,10 @@ def cases_A(thorough, alpha):
                 # quick tier: ~60 ms of process start-up per parallel run; how/which scalar step is given does not
                 # reach _compute_parallel_grad differently, so these two axes are only crossed with parallel in thorough
                 continue
+            if c["par"] and not thorough and c["idx"] not in _ordered_selections(n, False, small=True):
+                continue  # quick: parallel is crossed with the sorted subsets and a few non-sorted / repeated selections
+            if not thorough and (c["via"] == "ctor" or c["step"] == "s2") and (c["idx"] != sorted(set(c["idx"]))):
+                continue  # quick: non-sorted / repeated selections are crossed with step in {first scalar, vector} given at call
             if _valid(case):
                 out.append(case)
     return out
@@ -1318,14 +1415,14 @@ SEL_ALPHABET = {
     # layout -> variable -> (quick forms, thorough extra forms); None = the variable is absent from ``indices``
     "toy33": {
         "x1": ([None, 0], ["..."]),
-        "x2": ([None, 0, 1, [0, 1], [1], "slice:0:1", "..."], ["none", "slice:1:2"]),
+        "x2": ([None, 0, 1, [0, 1], [1], "slice:0:1", "...", [1, 0], [1, 1]], ["none", "slice:1:2", [0, 1, 0]]),
         "y1": ([None, 0], []),
-        "y2": ([None, 1, [0, 1], [0]], ["slice:0:1", 0]),
+        "y2": ([None, 1, [0, 1], [0], [1, 0]], ["slice:0:1", 0, [0, 0]]),
     },
     # strict subsets on the first variable only, the last only, both; ints / lists / slices
     "toy54": {
-        "a": ([None, 1, [0, 2], "slice:0:2", [2]], [0, [1, 2], "..."]),
-        "b": ([None, 0, [1], "slice:1:2"], [1, "..."]),
+        "a": ([None, 1, [0, 2], "slice:0:2", [2], [2, 0], [1, 1]], [0, [1, 2], "...", [2, 1, 0], [0, 2, 0]]),
+        "b": ([None, 0, [1], "slice:1:2", [1, 0]], [1, "...", [0, 0]]),
         "y": ([None, 1], [[0, 1]]),
         "w": ([None, 0], []),
     },
@@ -1354,7 +1451,7 @@ def _wrong_entries(sel, ni, no, ins, outs, every):
         rows = _selected(sel, o, len(outs[o]))
         for i in ni:
             cols = _selected(sel, i, len(ins[i]))
-            ent = [(r, c) for r in rows for c in cols]
+            ent = sorted({(r, c) for r in rows for c in cols})
             if not every:
                 ent = [(r, c) for r, c in ent if r == rows[0] or c == cols[0]]
             out += [[o, r, i, c] for r, c in ent]
@@ -1377,15 +1474,15 @@ def cases_B(thorough, alpha):
         for a, stp, par in itertools.product(modes, ["default", "scalar", "vec"], [False, True]):
             if par and layout != "toy33" and not thorough:
                 continue
-            for xidx in [[]] + [list(s) for s in product.nonempty_subsets(list(range(n)))]:
+            for xidx in _ordered_selections(n, thorough, small=par and not thorough):
                 c = {"part": "B3", "layout": layout, "mode": a, "step": stp, "xidx": xidx, "par": par, "alpha": alpha}
                 if _valid(c):
                     out.append(c)
         # B2 check_jacobian
         for a, stp in itertools.product(modes, ["scalar", "vec"] + (["default"] if thorough else [])):
             for ni, no in itertools.product([[]] + [list(i) for i in names_in], [[]] + [list(o) for o in names_out]):
-                if not thorough and (ni, no) not in QUICK_NAMES[layout]:
-                    continue
+                if not thorough and ((ni, no) not in QUICK_NAMES[layout] or (stp == "vec" and (ni or no))):
+                    continue  # quick: the step vector is crossed with the default names only
                 if thorough and layout == "toy54" and (ni, no) not in THOROUGH_NAMES_TOY54:
                     continue
                 for sel in _sel_product(layout, thorough):
@@ -1402,12 +1499,43 @@ def cases_B(thorough, alpha):
     return out
 
 
+def cases_C(thorough, alpha):
+    """The cache axis of the discipline level: cache in {none, SimpleCache, MemoryFullCache} x tolerance in
+    {0, 1e-4 (>> every step), 1e-12} x linearize (3 modes, all / subsets of io) x compute_approx_jac (x_indices) x
+    check_jacobian (exact Jacobian accepted; one wrong entry, a forgotten block, a NULL Jacobian rejected)."""
+    out = []
+    for layout, lay in LAYOUTS.items():
+        ins, outs, n = lay["ins"], lay["outs"], FUNCS[lay["fn"]].n
+        vi = list(ins)[-1]
+        for cache, a in itertools.product(CACHES, ["FD", "CD", "CS"]):
+            for setup, stp in (("setter", "default"), ("explicit", "scalar")):
+                for din, dout in [(None, None), ([vi], list(outs)), (list(ins), [list(outs)[0]])] + ([([list(ins)[0]], [list(outs)[-1]])] if thorough else []):
+                    out.append({"part": "B1", "layout": layout, "mode": a, "setup": setup, "step": stp, "point": "interior", "din": din, "dout": dout, "cache": cache, "alpha": alpha})
+            for stp in ["scalar", "vec"]:
+                for xidx in [[], [n - 1], [n - 1, 0]] + ([[0], [1, n - 1]] if thorough else []):
+                    c = {"part": "B3", "layout": layout, "mode": a, "step": stp, "xidx": xidx, "par": False, "cache": cache, "alpha": alpha}
+                    if _valid(c):
+                        out.append(c)
+            for sel in [{}, {vi: 1}] + ([{vi: [1, 0]}, {list(outs)[-1]: 0}] if thorough else []):
+                base = {"part": "B2", "layout": layout, "mode": a, "step": "scalar", "I": [], "O": [], "sel": sel, "wrong": None, "cache": cache, "alpha": alpha}
+                out.append(base)
+                out.append({**base, "wrong": ["*", "zero", "*", 0]})
+                out += [{**base, "wrong": w} for w in _wrong_entries(sel, list(ins), list(outs), ins, outs, thorough)[:: 1 if thorough else 3]]
+    return out
+
+
+def cases_Y(alpha):
+    """NOT part of the default run (./check C16 --only Y): DisciplineJacApprox.auto_set_step must not depend on the
+    discipline's cache - the steps and error estimates equal those obtained with no cache."""
+    return [{"part": "Y", "layout": layout, "mode": a, "step": "scalar", "cache": cache, "alpha": alpha} for layout in LAYOUTS for a in ("FD", "CD") for cache in CACHES]
+
+
 def cases_H(thorough, alpha):
     """Two-call histories on one approximator with an edit of its DesignSpace in between (full product)."""
     out = []
     for fname in ["cubic3", "sq2", "expsin3"] if thorough else ["cubic3"]:
         n = FUNCS[fname].n
-        subsets = [list(s) for s in product.nonempty_subsets(list(range(n)))] if thorough else [[n - 1], [0, n - 1]]
+        subsets = _ordered_selections(n, False)[1:] if thorough else [[n - 1], [0, n - 1], [n - 1, 0]]
         for approx, normalize, (edit, poss), idx2, step in itertools.product(["FD", "CD", "CS"], [False, True], HIST_EDITS.items(), [[]] + subsets, ["s1", "vec"]):
             for pos in poss + (["interior"] if thorough else []):
                 c = {"part": "H", "fn": fname, "approx": approx, "normalize": normalize, "edit": edit, "pos": pos, "idx2": idx2, "step": step, "alpha": alpha}
@@ -1429,8 +1557,8 @@ def cases_HB(thorough, alpha):
     out = []
     base = {"part": "HB", "layout": "toy54", "alpha": alpha, "wrong": None}
     io_cfgs = [None, [["a"], ["y"]], [["b"], ["w"]], [["a", "b"], ["y"]]]
-    x_cfgs = [[], [0], [1, 3], [2, 4], [3]] + ([[0, 1, 2], [3, 4], [4]] if thorough else [])
-    sel_cfgs = [{}, {"a": 1}, {"a": [0, 2]}, {"b": 1}, {"a": "slice:0:2", "b": 0}, {"a": 1, "w": 0}]
+    x_cfgs = [[], [0], [1, 3], [2, 4], [3], [3, 1]] + ([[0, 1, 2], [3, 4], [4], [4, 4]] if thorough else [])
+    sel_cfgs = [{}, {"a": 1}, {"a": [0, 2]}, {"b": 1}, {"a": "slice:0:2", "b": 0}, {"a": 1, "w": 0}, {"a": [2, 0]}]
     for a, same in itertools.product(["FD", "CD", "CS"], [False, True]):
         for first, second in itertools.product(io_cfgs, io_cfgs):
             out.append({**base, "kind": "linearize", "mode": a, "step": "scalar", "same_point": same, "first": first, "second": second})
@@ -1524,7 +1652,9 @@ def pmap_nondaemon(fn, cases, tally, jobs, chunk=20, timeout=900):
 
 
 def _uses_processes(case):
-    return bool(case.get("par"))
+    # MemoryFullCache keeps its data in a multiprocessing manager (a server process): such cases run on the workers
+    # that shut the manager down when they finish
+    return bool(case.get("par")) or (case.get("cache") or [""])[0] == "MEMORY_FULL" or case["part"] == "Y"
 
 
 def run(ctx):
@@ -1541,6 +1671,10 @@ def run(ctx):
         cases += cases_HB(ctx.thorough, alpha)
     if not only or only == "X":  # witnesses of the registered known finding (non-differentiated inputs off their defaults)
         cases += cases_X(alpha)
+    if not only or only == "C":
+        cases += cases_C(ctx.thorough, alpha)
+    if not only or only == "Y":
+        cases += cases_Y(alpha)
     if not only or (only.startswith("B")):
         cases += [c for c in cases_B(ctx.thorough, alpha) if not only or only == "B" or c["part"] == only]
     cases.sort(key=lambda c: len(_flags(c)))  # simplest first (stable)
@@ -1566,7 +1700,8 @@ def run(ctx):
         "bounds": {
             "functions": THOROUGH_FUNCS if ctx.thorough else QUICK_FUNCS,
             "points": THOROUGH_POINTS if ctx.thorough else QUICK_POINTS,
-            "x_indices": "default + every non-empty sorted subset (n = 2, 3" + (", 4)" if ctx.thorough else ")"),
+            "x_indices": "default + every non-empty subset + every permutation of it (n >= 4: ordered pairs, reversed subsets) + selections with one repeated index (n = 2, 3" + (", 4)" if ctx.thorough else "; quick: non-sorted/repeated selections crossed with step in {first scalar, vector} at call, a few of them with parallel)"),
+            "cache_axis": "cache in {none, SimpleCache, MemoryFullCache} x tolerance in {0, 1e-4, 1e-12} x linearize / compute_approx_jac / check_jacobian on both harness disciplines",
             "steps": "2 scalars + 1 per-component vector (length of x); ComplexStep: 2 scalars",
             "parallel": "off / 2 processes" + ("" if ctx.thorough else " (quick: parallel is crossed with step in {first scalar, vector} given at call; thorough: full product)"),
             "design_space": ["none", "bounded, normalize=False", "bounded, normalize=True"],
@@ -1585,6 +1720,7 @@ def run(ctx):
             "centered differences within one step of a bound of a supplied design space are held to the one-sided first-order bound",
             "only upper bounds are protected by the statement; evaluations below lower bounds are counted, not flagged",
             "ComplexStep is enumerated with scalar steps only; step vectors have the length of x",
+            "auto_set_step under a tolerant cache is a separate, patched finding (./check C16 --only Y), outside the default run",
             "parallel means processes (thread workers must be distinct objects by CallableParallelExecution's documented contract); the evaluation log is in fork-shared memory",
             "check_jacobian(auto_set_step=True) and Jacobians wrong in a not-selected entry are outside the oracle",
         ],
